@@ -10,5 +10,7 @@ import numpy, pandas, scipy, swcgeom
 assert swcgeom.__file__.startswith("/repo/"), swcgeom.__file__
 from mc import selftest
 selftest.main()
+import shutil
+assert shutil.which("tlc"), "tlc (TLA+ model checker) is not on PATH: needed by the C18 model-conformance space"
 print("setup ok")
 PY
